@@ -239,22 +239,16 @@ func c11TypeDepth(t *ref.C11Type) int {
 
 // ---- Go realisation ----
 
-var (
-	c11GoMu    sync.Mutex
-	c11GoCache = map[*ref.C11Type]reflect.Type{}
-)
+var c11GoCache sync.Map // *ref.C11Type -> reflect.Type
 
 func c11GoType(t *ref.C11Type) reflect.Type {
-	c11GoMu.Lock()
-	if g, ok := c11GoCache[t]; ok {
-		c11GoMu.Unlock()
-		return g
+	if g, ok := c11GoCache.Load(t); ok {
+		return g.(reflect.Type)
 	}
-	c11GoMu.Unlock()
 	g := c11GoTypeBuild(t)
-	c11GoMu.Lock()
-	c11GoCache[t] = g
-	c11GoMu.Unlock()
+	if prev, loaded := c11GoCache.LoadOrStore(t, g); loaded {
+		return prev.(reflect.Type)
+	}
 	return g
 }
 
